@@ -2,7 +2,9 @@ package memory
 
 import (
 	"context"
+	"crypto/rand"
 	"fmt"
+	"io"
 	"slices"
 	"sort"
 	"strconv"
@@ -139,6 +141,12 @@ type MemoryBackend struct {
 	// map: store => set of changes
 	changes map[string][]*tupleChangeRec // GUARDED_BY(mutexTuples).
 
+	// changeEntropy feeds the ULIDs of changelog entries. It is owned by this backend and only
+	// read while mutexTuples is held, so that ULIDs minted within one millisecond keep increasing
+	// in commit order: ReadChanges pages by ULID. The process-wide ulid.DefaultEntropy() restarts
+	// from a random value whenever any other caller uses it with a different timestamp.
+	changeEntropy io.Reader // GUARDED_BY(mutexTuples).
+
 	// AuthorizationModelBackend
 	// map: store = > map: type definition id => type definition
 	authorizationModels map[string]map[string]*AuthorizationModelEntry // GUARDED_BY(mutexModels).
@@ -170,6 +178,7 @@ func New(opts ...StorageOption) storage.OpenFGADatastore {
 		maxTypesPerAuthorizationModel: defaultMaxTypesPerAuthorizationModel,
 		tuples:                        make(map[string][]*storage.TupleRecord, 0),
 		changes:                       make(map[string][]*tupleChangeRec, 0),
+		changeEntropy:                 ulid.Monotonic(rand.Reader, 0),
 		authorizationModels:           make(map[string]map[string]*AuthorizationModelEntry),
 		stores:                        make(map[string]*openfgav1.Store, 0),
 		assertions:                    make(map[string][]*openfgav1.Assertion, 0),
@@ -359,7 +368,7 @@ func (s *MemoryBackend) Write(ctx context.Context, store string, deletes storage
 	}
 
 	var records []*storage.TupleRecord
-	entropy := ulid.DefaultEntropy()
+	entropy := s.changeEntropy
 Delete:
 	for _, tr := range s.tuples[store] {
 		t := tr.AsTuple()
